@@ -78,6 +78,7 @@ type BaseStore struct {
 	muJoining           sync.Mutex
 	muLocalHeads        sync.Mutex
 	unloadedHeads       map[string][]ipfslog.Entry
+	cutHeads            []ipfslog.Entry
 	muReplicationStatus sync.Mutex
 	sortFn              ipfslog.SortFn
 	logger              *zap.Logger
@@ -442,6 +443,7 @@ func (b *BaseStore) Drop() error {
 	// the heads of earlier sessions are gone with the cache
 	b.muLocalHeads.Lock()
 	b.unloadedHeads = map[string][]ipfslog.Entry{"_localHeads": nil, "_remoteHeads": nil}
+	b.cutHeads = nil
 	b.muLocalHeads.Unlock()
 
 	// TODO: Destroy cache? b.cache.Delete()
@@ -950,9 +952,23 @@ func (b *BaseStore) keepNewest(oplog ipfslog.Log, amount int) {
 		return
 	}
 
+	before := oplog.Heads().Slice()
+
 	if _, err := oplog.Join(none, amount); err != nil {
 		b.logger.Warn("unable to cut the log down", zap.Error(err))
+		return
 	}
+
+	// a head that the cut has taken out of the log (an entry written before the load, older
+	// than what was loaded) is named by nothing the log still holds: it goes on being cached
+	// next to the log's heads, or the next write would leave it out of reach for good
+	b.muLocalHeads.Lock()
+	for _, h := range before {
+		if _, ok := oplog.Get(h.GetHash()); !ok {
+			b.cutHeads = append(b.cutHeads, h)
+		}
+	}
+	b.muLocalHeads.Unlock()
 }
 
 // ownEntriesOnly returns l itself, or a log made of l's entries without those written for
@@ -1058,7 +1074,32 @@ func (b *BaseStore) headsToCache(ctx context.Context, key string, oplog ipfslog.
 	}
 	b.unloadedHeads[key] = kept
 
-	return append(oplog.Heads().Slice(), kept...)
+	heads := append(oplog.Heads().Slice(), kept...)
+
+	// heads that a load with a limit has cut out of the log
+	cut := b.cutHeads[:0:0]
+	for _, h := range b.cutHeads {
+		if _, ok := oplog.Get(h.GetHash()); !ok {
+			cut = append(cut, h)
+		}
+	}
+	b.cutHeads = cut
+
+	for _, h := range cut {
+		known := false
+		for _, o := range heads {
+			if o.GetHash().Equals(h.GetHash()) {
+				known = true
+				break
+			}
+		}
+
+		if !known {
+			heads = append(heads, h)
+		}
+	}
+
+	return heads
 }
 
 func intPtr(i int) *int {
